@@ -418,12 +418,13 @@ def multi_receive(ports, yield_ports=False, block=True):
         random.shuffle(ports)
 
         for port in ports:
-            if not port.closed:
-                for message in port.iter_pending():
-                    if yield_ports:
-                        yield port, message
-                    else:
-                        yield message
+            # (A closed port may still hold messages it took in before
+            # it closed. iter_pending() hands them out and then stops.)
+            for message in port.iter_pending():
+                if yield_ports:
+                    yield port, message
+                else:
+                    yield message
 
         if block:
             sleep()
